@@ -456,7 +456,31 @@ def _seeds():
             "Select(ds, lambda e: {'k': e.a, 'l': [e.b, 2]})", "Select(ds, lambda e: e.a if e.b > 1 and not e.c else -e.d)",
             # neighbouring calls whose arguments can move from one to the other (which call owns an argument is structure)
             "Select(ds, lambda e: pair(scale(e.pt, cut), cut(e.eta)))", "f(g(a, h), h(b), h)", "f(g(x, x), x(x), [x, x], (x,))",
-            "Select(ds, lambda e: (f(e.a, g), g(e.b, 1)))"]
+            "Select(ds, lambda e: (f(e.a, g), g(e.b, 1)))"] + _slot_seeds()
+
+
+def _slot_seeds():
+    """structures that differ only in WHICH optional slot of one node a child sits in: slice bounds, * / ** parameters,
+    positional / keyword-only parameters, the two branches of a conditional, keyword names, chained comparisons"""
+    sl = ["1:", ":1", "::1", "1:2", "2:1", ":1:2", "1::2", "1:2:3", ":", "::", "e.n:", ":e.n"]
+    out = [f"Select(ds, lambda e: e.jets[{x}])" for x in sl]
+    out += [f"Select(ds, lambda e: e.m(lambda {p}: 1))" for p in ("*a", "**a", "a", "a, /", "*, a", "a=1", "*, a=1", "a, *b", "a, **b",
+                                                                   "*a, b", "*a, **b", "a, b", "b, a")]
+    out += ["Select(ds, lambda e: f(a=e.x, b=e.y))", "Select(ds, lambda e: f(b=e.x, a=e.y))", "Select(ds, lambda e: f(e.x, b=e.y))",
+            "Select(ds, lambda e: f(a=e.x, *e.y))", "Select(ds, lambda e: f(*e.x, **e.y))", "Select(ds, lambda e: f(**e.x))", "Select(ds, lambda e: f(*e.x))",
+            "Select(ds, lambda e: e.a < e.b < e.c)", "Select(ds, lambda e: e.a < (e.b < e.c))", "Select(ds, lambda e: (e.a < e.b) < e.c)",
+            "Select(ds, lambda e: e.a < e.b and e.b < e.c)", "Select(ds, lambda e: e.a < e.b <= e.c)", "Select(ds, lambda e: e.a <= e.b < e.c)",
+            "Select(ds, lambda e: e.a and e.b and e.c)", "Select(ds, lambda e: e.a and (e.b and e.c))", "Select(ds, lambda e: e.a and e.b or e.c)",
+            "Select(ds, lambda e: e.a if e.b else e.c)", "Select(ds, lambda e: e.b if e.a else e.c)", "Select(ds, lambda e: e.a if e.c else e.b)",
+            "Select(ds, lambda e: {'a': e.x, 'b': e.y})", "Select(ds, lambda e: {'b': e.y, 'a': e.x})", "Select(ds, lambda e: {'a': e.y, 'b': e.x})",
+            "Select(ds, lambda e: [e.x, e.y])", "Select(ds, lambda e: (e.x, e.y))", "Select(ds, lambda e: {e.x, e.y})",
+            "Select(ds, lambda e: [j for j in e.jets if j.a if j.b])", "Select(ds, lambda e: [j for j in e.jets if j.b if j.a])",
+            "Select(ds, lambda e: [j for j in e.jets if j.a and j.b])", "Select(ds, lambda e: (j for j in e.jets if j.a if j.b))",
+            "Select(ds, lambda e: 0.0)", "Select(ds, lambda e: -0.0)", "Select(ds, lambda e: 0)", "Select(ds, lambda e: False)", "Select(ds, lambda e: 0j)",
+            "Select(ds, lambda e: 1)", "Select(ds, lambda e: 1.0)", "Select(ds, lambda e: True)", "Select(ds, lambda e: '1')", "Select(ds, lambda e: b'1')",
+            "Select(ds, lambda e: e.Pt)", "Select(ds, lambda e: e.pt)", "Select(ds, lambda e: e.PT)",
+            "Select(ds, lambda e: e.\u00e9)", "Select(ds, lambda e: e.e\u0301)"]
+    return out
 
 
 def _fluent_cases():
